@@ -352,6 +352,18 @@ hostlist_t read_wcoll(char *file, FILE * f)
     get_file_path (file, path, sizeof (path));
 
     ctx = wcoll_ctx_create (path);
+
+    /*
+     *  Remember the file itself (under the name an #include would find it),
+     *   so that an include cycle leading back to it does not read it twice.
+     */
+    if (file != NULL) {
+        char self [4096];
+        int n = snprintf (self, sizeof (self), "%s/%s", path, xbasename (file));
+        if ((n > 0) && (n < sizeof (self)))
+            wcoll_ctx_file_is_cached (ctx, self);
+    }
+
     wcoll_ctx_read_stream (ctx, fp);
     new = ctx->hl;
     wcoll_ctx_destroy (ctx);
